@@ -48,7 +48,11 @@ def gen_case(rng, i=None, pruning=False, allow_none=True):
         kw = dict(tag=False, strip=False, remove_empties=False, extra_letters=None,
                   variableLengthFrags=False, dialect='portable')
         size = None
-    return {'xs': xs, 'form': form, 'kw': kw, 'size': size, 'seed': seed, 'pools': pools}
+        # pandas' object hashtable (Series.unique) compares strings as C strings and so
+        # merges strings that differ only after an embedded NUL: not tdda's doing
+        xs = [x.replace('\x00', '\x01') if x is not None else x for x in xs]
+    return {'xs': xs, 'form': form, 'kw': kw, 'size': size, 'seed': seed, 'pools': pools,
+            'prng': rng.randrange(2 ** 31)}
 
 
 def build_input(case, order=None):
@@ -85,8 +89,11 @@ def run_extractor(case, inp=None, **over):
     """Returns the Extractor (or raises).  Series forms go through pdextract and
     return a plain list of expressions instead."""
     from tdda.rexpy import rexpy
+    import random
     if inp is None:
         inp = build_input(case)
+    if case.get('prng') is not None:
+        random.seed(case['prng'])       # the global PRNG state is part of the case
     kw = dict(case['kw'])
     kw.update(over)
     buf = io.StringIO()
